@@ -836,13 +836,40 @@ SG2_LEVEL = 2.0 ** -13                                                   # absol
 SG2_RATIO = 1500.0                                                       # ... and relative to 2^(1-bits) (mapped: 1019 at 33 bits, stopband_begin 1.2)
 
 
+def sg4_signature(pclass, gain):
+    """Known finding F-SG4, configuration part: the poly-phase stage is the first stage with designed coefficients (it carries the
+    gain) and the gain is not 1."""
+    return "F-SG4" in ACTIVE and bool(re.match(r"^poly\d", pclass)) and gain != 1
+
+
+def sg4_cap(pclass, gain, bits):
+    """Known finding F-SG4, symptom part: the error (of full scale, relative to the factor) that one outermost tap left unscaled
+    explains.  The tap is of the order of the stop-band ripple (mapped: <= 0.26 x 2^(1-bits)); unscaled it weighs 1/gain:
+    gain << 1 (integer input to a wider format): unbounded; otherwise 2^(1-bits) x max(1, 1/|gain| - 1)."""
+    if not sg4_signature(pclass, gain):
+        return 0.0
+    g = abs(gain)
+    if g < 2.0 ** -8:
+        return float("inf")
+    return 2.0 ** (1 - bits) * max(1.0, 1.0 / g - 1.0)
+
+
+ACTIVE = set()           # ids of the findings listed as `known` for the running property (set_active)
+
+
+def set_active(pid):
+    global ACTIVE
+    ACTIVE = {f["id"] for f in common.known_active(pid)}
+    return ACTIVE
+
+
 def known_excess(r, metric, m, level=None):
     """r: a job_rows / tone result carrying "flags"; metric in stop/img/res/rowsum/gain; m = measured/bound (> 1 fails).
     Returns the id of the known finding that explains the excess, or None (then it is a violation)."""
     if m <= 1:
         return None
     for fid, on in sorted(r.get("flags", {}).items()):
-        if not on or metric not in FINDING_SYMPTOM[fid]:
+        if not on or fid not in ACTIVE or metric not in FINDING_SYMPTOM[fid]:
             continue
         cap = FINDING_SYMPTOM[fid][metric]
         if cap is None:
